@@ -126,7 +126,9 @@ def _instances(trace, meta):
     for l, e in enumerate(trace["ev"], 1):
         if e["a"] == "reset":
             path_kinds = []
-            ref, cur, art = cur, trace["init"], None
+            prev_ev = trace["ev"][l - 2] if l >= 2 else None
+            ref = cur if (prev_ev and prev_ev["a"] == "parse" and prev_ev["exc"] == "none") else None
+            cur, art = trace["init"], None
             last = {"kind": None, "dd": None, "n": 0, "irn": 0}
             hop, prev = 0, "none"
             continue
@@ -384,7 +386,7 @@ def argparse_domain(air):
 
 def build(prop, thorough, rnd):
     """-> list of scenarios for a property."""
-    ts = D.tables(6 if thorough else 1, seed())
+    ts = D.tables(6 if thorough else 1, seed())      # T0, T1, TN (related names), then seeded random tables
     T0, T1 = ts[0], ts[1]
     single = load_domain("single")
     pair = load_domain("pair")
